@@ -18,7 +18,7 @@ RULE = ("chain and two-branch topologies giving routes of 1..8 hops between real
         "reached; distinct = (hops, type class, fault plan kind and position, timeouts).")
 REQUIRED = {"result_vs_ack_arrival": 150, "ack_count": 300, "no_ack_for_others": 150,
             "duration_bound": 300}
-BUDGET = {"quick": 150, "thorough": 600}
+BUDGET = {"quick": 480, "thorough": 900}
 
 FOREIGN_ID = 0xEEEE
 CONSUMED = {128, 130, 131, 148, 149, 150, 193, 194, 195}
